@@ -927,7 +927,16 @@ def c18_eval(p):
     if len(exact) >= 3:
         cx, cy = sum(a for a, _ in got) / len(got), sum(b for _, b in got) / len(got)
         angs = [math.atan2(b - cy, a - cx) for a, b in got]
-        if any(angs[i] > angs[i + 1] + 1e-9 for i in range(len(angs) - 1)):
+        # angular order is a cyclic notion: a point on the negative x-axis of the centroid has angle +pi or -pi depending on
+        # the last bit of the centroid, so the list may legitimately start anywhere on the circle - one descent at most
+        # around the cycle, with the cut folded (an oracle that demanded a rising sequence from -pi was a false alarm)
+        folded = [x + 2 * math.pi if x < -math.pi + 1e-7 else x for x in angs]
+
+        def descents(seq):
+            n = len(seq)
+            return sum(1 for i in range(n) if seq[i] > seq[(i + 1) % n] + 1e-9)
+
+        if min(descents(angs), descents(folded)) > 1:
             out["violation"] = _viol("C18", "vertices", "not_in_angular_order", "vertices are not listed in angular order", p, "c18_eval")
     return out
 
